@@ -5,6 +5,7 @@ import (
 	"context"
 	"errors"
 	"fmt"
+	"io"
 	"math/rand"
 	"os"
 	"path/filepath"
@@ -290,7 +291,68 @@ func runC07(cfg Config) {
 			monitor("Tar reported success on a cancelled context with an incomplete archive", "cancel fn=Tar")
 		}
 	}
+	// UnTar onto the real file system (LocalFS restores directory times at the end: finishUntar),
+	// cancelled after k bytes of the archive have been read, for k spread over the archive
+	{
+		srcDir := filepath.Join(cfg.Work, "untar-src")
+		os.MkdirAll(filepath.Join(srcDir, "a", "b"), 0755)
+		os.MkdirAll(filepath.Join(srcDir, "c"), 0755)
+		want := 4 // ., a, a/b, c
+		for i := 0; i < 14; i++ {
+			d := []string{"", "a", "a/b", "c"}[i%4]
+			os.WriteFile(filepath.Join(srcDir, d, fmt.Sprintf("f%02d", i)), randBytes(rng, 50+rng.Intn(400)), 0644)
+			want++
+		}
+		var ar bytes.Buffer
+		if err := desync.Tar(context.Background(), &ar, desync.NewLocalFS(srcDir, desync.LocalFSOptions{})); err == nil {
+			total := ar.Len()
+			steps := cfg.N(40, 400)
+			for j := 0; j <= steps; j++ {
+				k := total * j / steps
+				dst := filepath.Join(cfg.Work, "untar-dst")
+				os.RemoveAll(dst)
+				os.MkdirAll(dst, 0755)
+				ctx, cancel := context.WithCancel(context.Background())
+				r := &cancelAfterReader{r: bytes.NewReader(ar.Bytes()), left: k, cancel: cancel}
+				err := desync.UnTar(ctx, r, desync.NewLocalFS(dst, desync.LocalFSOptions{}))
+				cancel()
+				got := 0
+				filepath.Walk(dst, func(p string, info os.FileInfo, e error) error {
+					if e == nil {
+						got++
+					}
+					return nil
+				})
+				caseLine := fmt.Sprintf("cancel fn=UnTar fs=LocalFS after-bytes=%d of=%d", k, total)
+				rep.Count(caseLine, k < total, "fn:UnTar/LocalFS", fmt.Sprintf("outcome:%v", err == nil))
+				if err == nil && got != want {
+					monitor(fmt.Sprintf("UnTar to disk reported success after a cancellation with %d of %d nodes written", got, want), caseLine)
+				}
+			}
+		}
+	}
 	rep.Write(cfg.Out)
+}
+
+// cancelAfterReader cancels a context once `left` bytes have been handed out
+type cancelAfterReader struct {
+	r      io.Reader
+	left   int
+	cancel context.CancelFunc
+}
+
+func (c *cancelAfterReader) Read(p []byte) (int, error) {
+	if c.left <= 0 {
+		c.cancel()
+	} else if len(p) > c.left {
+		p = p[:c.left]
+	}
+	n, err := c.r.Read(p)
+	c.left -= n
+	if c.left <= 0 {
+		c.cancel()
+	}
+	return n, err
 }
 
 func runC06(cfg Config) {
@@ -347,6 +409,63 @@ func runC06(cfg Config) {
 				m[rng.Intn(maxCalls)] = true
 			}
 			schedules = append(schedules, m)
+		}
+		// defective inputs without any store fault: a data file that no longer matches the index
+		// (stale, shorter, longer), a source store that lacks chunks or holds invalid ones
+		for v := 0; v < 6; v++ {
+			stale := append([]byte{}, blob...)
+			what := ""
+			switch v {
+			case 0, 1, 2: // same length, bytes inside one chunk differ
+				c := idx.Chunks[rng.Intn(len(idx.Chunks))]
+				for q := 0; q <= rng.Intn(3); q++ {
+					stale[int(c.Start)+rng.Intn(int(c.Size))] ^= byte(1 + rng.Intn(255))
+				}
+				what = "bytes-changed"
+			case 3:
+				stale = stale[:len(stale)-1-rng.Intn(len(stale)/2)]
+				what = "shorter"
+			case 4:
+				stale = append(stale[:len(stale)/2], randBytes(rng, len(stale)-len(stale)/2)...)
+				what = "second-half-replaced"
+			case 5:
+				what = "unchanged"
+			}
+			staleFile := filepath.Join(cfg.Work, "stale06")
+			os.WriteFile(staleFile, stale, 0644)
+			ws := newMemStore()
+			err := desync.ChopFile(context.Background(), staleFile, idx.Chunks, ws, n, desync.NewProgressBar(""))
+			caseLine := fmt.Sprintf("defective-input fn=ChopFile file=%s n=%d it=%d seed=%d", what, n, it, cfg.Seed)
+			rep.Count(caseLine, what != "unchanged", "fn:ChopFile/stale-file", fmt.Sprintf("outcome:%v", err == nil))
+			if err == nil {
+				checkStore(ws, idx, caseLine)
+			} else if what == "unchanged" {
+				monitor("ChopFile failed on a file that matches its index: "+err.Error(), caseLine)
+			}
+			// Copy from a source that lacks (or holds a damaged copy of) a chunk
+			src2 := newMemStore()
+			for id, b := range data {
+				src2.chunks[id] = b
+			}
+			victim := ids[rng.Intn(len(ids))]
+			what = "missing-in-source"
+			if v%2 == 1 {
+				src2.chunks[victim] = append([]byte{1}, src2.chunks[victim]...)
+				what = "invalid-in-source"
+			} else {
+				delete(src2.chunks, victim)
+			}
+			wd := newMemStore()
+			pre := v >= 4 // the target already has it: nothing needs to be fetched
+			if pre {
+				wd.chunks[victim] = data[victim]
+			}
+			err = desync.Copy(context.Background(), ids, src2, wd, n, desync.NewProgressBar(""))
+			caseLine = fmt.Sprintf("defective-input fn=Copy source=%s target-has-it=%v n=%d it=%d seed=%d", what, pre, n, it, cfg.Seed)
+			rep.Count(caseLine, true, "fn:Copy/"+what, fmt.Sprintf("outcome:%v", err == nil))
+			if err == nil {
+				checkStore(wd, idx, caseLine)
+			}
 		}
 		for si, sched := range schedules {
 			for _, op := range []string{"", "has", "store"} {
